@@ -738,6 +738,9 @@ func keyCategory(t reflect.Type) string {
 // shapeClass names the feature of a minimal failing sub-value.
 func shapeClass(v reflect.Value) string {
 	t := v.Type()
+	if v.Kind() == reflect.String && !validUTF8(v.String()) {
+		return "invalid-utf8-string"
+	}
 	if _, base := ptrDepth(t); isSchemaType(base) {
 		return "eino-schema-type"
 	}
@@ -784,10 +787,6 @@ func shapeClass(v reflect.Value) string {
 			return "map-with-tagged-struct-key"
 		}
 		return "map-with-" + keyCategory(t.Key()) + "-key"
-	case reflect.String:
-		if !validUTF8(v.String()) {
-			return "invalid-utf8-string"
-		}
 	}
 	return kindName(t)
 }
@@ -813,8 +812,14 @@ func hasUnexported(t reflect.Type) bool {
 func errShapeClass(v reflect.Value) string {
 	t := v.Type()
 	d, base := ptrDepth(t)
-	if isSchemaType(base) {
-		return "eino-schema-type"
+	// an (empty) container of one of eino's own types is refused because of that type
+	for b := t; ; b = b.Elem() {
+		if isSchemaType(b) {
+			return "eino-schema-type"
+		}
+		if k := b.Kind(); k != reflect.Ptr && k != reflect.Slice && k != reflect.Map && k != reflect.Array {
+			break
+		}
 	}
 	stripped := func(x reflect.Type) reflect.Type { _, b := ptrDepth(x); return b }
 	switch v.Kind() {
